@@ -292,6 +292,26 @@ def _sh(s):
     return ",".join(map(str, s))
 
 
+def _probe_formats(n, fmt, engine):
+    def run():
+        import numpy as np
+        import pyrepseq
+        seqs, planted = hc.scale_case(n, plant=(0, 255, 256, -1) if n < 65536 else (0, 255, 256, 65535, 65536, -1))
+        got = getattr(pyrepseq, engine)(list(seqs), max_edits=1, output_type=fmt)
+        want = hc.scale_self_expected(planted)
+        N = len(seqs)
+        if fmt == "coo_matrix":
+            cells = sorted(zip(map(int, got.row), map(int, got.col), map(int, got.data)))
+            ok = got.shape == (N, N) and cells == sorted(want)
+            return ok, f"[scale probe] {engine}(output_type='coo_matrix') on {N} sequences: shape {got.shape}, cells {cells[:14]}, expected {sorted(want)}"
+        dense = np.zeros((N, N))
+        for i, j, d in want:
+            dense[i, j] = d
+        ok = isinstance(got, np.ndarray) and got.shape == (N, N) and bool((np.asarray(got, dtype=float) == dense).all())
+        return ok, f"[scale probe] {engine}(output_type='ndarray') on {N} sequences: shape {getattr(got, 'shape', None)}, non-zero cells {np.argwhere(np.asarray(got) != 0).tolist()[:14]}, expected {sorted(want)}"
+    return run
+
+
 def conditions(tier):
     out = []
     for engine in ENGINES:
@@ -336,4 +356,9 @@ def conditions(tier):
                 out.append(Condition(f"C10/container/{engine}/{container}/len=2,2,1,1", _body_container(engine, (2, 2, 1, 1), 1, container),
                                      _replay_container(engine, (2, 2, 1, 1), 1, container), budget=1800, models=MODELS, setup=_setup(engine),
                                      bounds=f"{engine} on a {container} of 4 strings"))
+    for engine in ("nearest_neighbor", "kdtree", "hash_based"):
+        out.append(hc.probe_condition(f"C10/probe/{engine}/coo_matrix/70000-sequences", f"{engine}(output_type='coo_matrix') on 70 006 sequences: shape and stored cells",
+                                      _probe_formats(70000, "coo_matrix", engine)))
+        out.append(hc.probe_condition(f"C10/probe/{engine}/ndarray/300-sequences", f"{engine}(output_type='ndarray') on 304 sequences: every cell",
+                                      _probe_formats(300, "ndarray", engine)))
     return out
